@@ -1043,6 +1043,79 @@ def evalf(r, env):
     return v
 
 
+def evalf_dec(r, env, prec=60):
+    """evalf in `prec`-digit decimal arithmetic, for points where the float evaluation of the common-denominator
+    normal form cancels catastrophically (z within 1e-6 of an end point).  `env` maps symbols to Fractions/ints/
+    Decimals; dilogarithms fall back to float precision."""
+    import decimal
+
+    ctx = decimal.Context(prec=prec)
+    D = decimal.Decimal
+
+    def dec(v):
+        if isinstance(v, D):
+            return v
+        if isinstance(v, Fraction):
+            return ctx.divide(D(v.numerator), D(v.denominator))
+        if isinstance(v, float):
+            return D(repr(v))
+        return D(v)
+
+    cache = {}
+
+    def atom_val(a):
+        if a in cache:
+            return cache[a]
+        if a in env:
+            v = dec(env[a])
+        elif a in _MATH_CONSTANTS:
+            v = {"pi": D("3.14159265358979323846264338327950288419716939937510582097494"),
+                 "zeta3": D("1.20205690315959428539973816151144999076498629234049888179227")}.get(a)
+            if v is None:
+                v = D(repr(_MATH_CONSTANTS[a]))
+        else:
+            ad = ATOMS.get(a)
+            if ad is None or ad.kind in ("sym", "opaque"):
+                import zlib
+
+                v = D(repr(0.3 + (zlib.crc32(a.encode()) % 1000) / 1700.0))
+            else:
+                u = value(to_rat(ad.arg))
+                if ad.kind == "log":
+                    if u <= 0:
+                        raise Undecided("numeric guard: log of non-positive value")
+                    v = ctx.ln(u)
+                elif ad.kind == "sqrt":
+                    if u < 0:
+                        raise Undecided("numeric guard: sqrt of negative value")
+                    v = ctx.sqrt(u)
+                elif ad.kind == "exp":
+                    v = ctx.exp(u)
+                elif ad.kind == "li3":
+                    v = D(repr(_li3_num(float(u))))
+                else:
+                    v = D(repr(_li2_num(float(u))))
+        cache[a] = v
+        return v
+
+    def poly_val(p):
+        s = D(0)
+        for m, (c, _) in p.t.items():
+            t = dec(c)
+            for a, k in m:
+                t = ctx.multiply(t, ctx.power(atom_val(a), k))
+            s = ctx.add(s, t)
+        return s
+
+    def value(rr):
+        v = poly_val(rr.n)
+        for f, p_ in rr.d.values():
+            v = ctx.divide(v, ctx.power(poly_val(f), p_))
+        return v
+
+    return value(to_rat(r))
+
+
 def numerically_equal(a, b, var_envs, rtol=1e-7):
     """Guard against normaliser incompleteness: True if a and b agree at all sample points."""
     try:
